@@ -181,6 +181,7 @@ class Ctl:
         self.fail_at = set()
         self.fired = []
         self.delays = {}  # method name -> virtual seconds (or callable(n) -> seconds)
+        self.yields = {}  # method name -> number of bare loop iterations the call gives up (no virtual time passes)
         self.open_handles = 0
         self.record = True
         self.exc_factory = lambda name: OSError(5, "injected fault @" + name)
@@ -196,6 +197,8 @@ class Ctl:
         d = self.delays.get(name)
         if d:
             await asyncio.sleep(d(self.n) if callable(d) else d)
+        for _ in range(self.yields.get(name, 0)):
+            await asyncio.sleep(0)
         if self.n in self.fail_at:
             self.fired.append((self.n, name))
             if self.on_fire:
